@@ -92,6 +92,12 @@ fn write_old(cfg: &FileCfg, entries: &[(Vec<u8>, Vec<u8>)]) -> Option<Vec<u8>> {
 }
 
 pub fn emit<W: Write>(c: &mut Cases<W>, cfg: &FileCfg, entries: &[(Vec<u8>, Vec<u8>)], with_old: bool) {
+    emit_with(c, cfg, entries, with_old, None)
+}
+
+/// `prefab`: a file the library wrote by itself (a chunk file of the sorter) under the settings `cfg`
+/// holding `entries`: it goes through the same comparisons as a file written here
+pub fn emit_with<W: Write>(c: &mut Cases<W>, cfg: &FileCfg, entries: &[(Vec<u8>, Vec<u8>)], with_old: bool, prefab: Option<Vec<u8>>) {
     c.begin("file");
     c.line(&format!("prop {}", c.prop.clone()));
     c.line(&cfg.line());
@@ -105,7 +111,10 @@ pub fn emit<W: Write>(c: &mut Cases<W>, cfg: &FileCfg, entries: &[(Vec<u8>, Vec<
     c.bump("entries.total", entries.len() as u64);
     // every fourth file is written through a sink that accepts only part of each buffer (any legal
     // io::Write must do: the writer may not rely on write() taking a whole block)
-    let outcome = if c.count % 4 == 0 {
+    let outcome = if let Some(f) = prefab {
+        c.bump("prefab.sorter_chunk_files", 1);
+        WriteOutcome::File(f)
+    } else if c.count % 4 == 0 {
         let ctl = crate::c_io::Ctl::new();
         *ctl.rng.borrow_mut() = Some(Rng::new(c.count));
         ctl.mode.set(3);
@@ -248,7 +257,93 @@ pub fn generate<W: Write>(c: &mut Cases<W>, rng: &mut Rng, thorough: bool, with_
 }
 
 /// C15: entries straddling the block-size threshold by a byte, sizes around the clamp
+/// a chunk creator whose chunks stay readable from outside
+struct SharedChunk(std::rc::Rc<std::cell::RefCell<Cursor<Vec<u8>>>>);
+impl std::io::Write for SharedChunk {
+    fn write(&mut self, b: &[u8]) -> std::io::Result<usize> { self.0.borrow_mut().write(b) }
+    fn flush(&mut self) -> std::io::Result<()> { Ok(()) }
+}
+impl std::io::Read for SharedChunk {
+    fn read(&mut self, b: &mut [u8]) -> std::io::Result<usize> { self.0.borrow_mut().read(b) }
+}
+impl std::io::Seek for SharedChunk {
+    fn seek(&mut self, p: std::io::SeekFrom) -> std::io::Result<u64> { self.0.borrow_mut().seek(p) }
+}
+struct SharedCreator(std::rc::Rc<std::cell::RefCell<Vec<std::rc::Rc<std::cell::RefCell<Cursor<Vec<u8>>>>>>>);
+impl grenad::ChunkCreator for SharedCreator {
+    type Chunk = SharedChunk;
+    type Error = std::io::Error;
+    fn create(&self) -> Result<SharedChunk, std::io::Error> {
+        let h = std::rc::Rc::new(std::cell::RefCell::new(Cursor::new(Vec::new())));
+        self.0.borrow_mut().push(h.clone());
+        Ok(SharedChunk(h))
+    }
+}
+
+/// The chunk files of the sorter are files of the writer under the settings forwarded by the sorter's
+/// builder (codec, level, block size, index interval, index levels): every chunk a small-budget sorter
+/// leaves behind goes through the file comparisons (bytes = writer model on the chunk's entries, block
+/// cuts, structure) like any other file.
+pub fn generate_sorter_chunks<W: Write>(c: &mut Cases<W>, rng: &mut Rng, thorough: bool) {
+    let n = if thorough { 400 } else { 40 };
+    for i in 0..n {
+        let mut cfg = gen_cfg(rng, false, i % 3 == 0);
+        cfg.levels = cfg.levels.min(3);
+        if cfg.level > 9 { cfg.level = cfg.level % 10; }
+        let chunks = std::rc::Rc::new(std::cell::RefCell::new(Vec::new()));
+        let mut b = grenad::SorterBuilder::new(crate::c_merge::LoggingConcat { calls: std::cell::RefCell::new(Vec::new()), fail_at: None, sort: false });
+        b.verif_dump_threshold_unclamped(3000 + (i % 5) * 2000);
+        b.allow_realloc(false);
+        b.max_nb_chunks(if i % 2 == 0 { 1000 } else { 3 });
+        b.chunk_compression_type(cfg.codec).chunk_compression_level(cfg.level).index_levels(cfg.levels);
+        if cfg.unclamped {
+            b.verif_block_size_unclamped(cfg.block_size);
+        } else {
+            b.block_size(cfg.block_size);
+        }
+        if let Some(iv) = cfg.interval {
+            b.index_key_interval(std::num::NonZeroUsize::new(iv).unwrap());
+        }
+        let mut sorter = b.chunk_creator(SharedCreator(chunks.clone())).build();
+        let nins = 200 + rng.below(400) as usize;
+        let r = catch(|| -> Result<(), String> {
+            for _ in 0..nins {
+                let k = gen_key(rng, 12);
+                let v = gen_val(rng, 60);
+                sorter.insert(&k, &v).map_err(|e| format!("{}", e))?;
+            }
+            let cursors = sorter.into_reader_cursors().map_err(|e| format!("{}", e))?;
+            drop(cursors);
+            Ok(())
+        });
+        if !matches!(r, Ok(Ok(()))) {
+            println!("DIRECT fail sorter-chunks: the sorter failed: {:?}", r.map_err(|_| "panic"));
+            continue;
+        }
+        // every chunk the creator handed out and that holds a finished file (merged-away chunks included)
+        for h in chunks.borrow().iter() {
+            let bytes = h.borrow().get_ref().clone();
+            let entries = match catch(|| -> Result<Vec<(Vec<u8>, Vec<u8>)>, String> {
+                let mut cur = Reader::new(Cursor::new(&bytes[..])).map_err(|e| err_class(&e))?.into_cursor().map_err(|e| err_class(&e))?;
+                let mut out = Vec::new();
+                while let Some((k, v)) = cur.move_on_next().map_err(|e| err_class(&e))? {
+                    out.push((k.to_vec(), v.to_vec()));
+                }
+                Ok(out)
+            }) {
+                Ok(Ok(es)) => es,
+                other => {
+                    println!("DIRECT fail sorter-chunks: a chunk file of {} bytes does not read back: {:?}", bytes.len(), other.map_err(|_| "panic"));
+                    continue;
+                }
+            };
+            emit_with(c, &cfg, &entries, false, Some(bytes));
+        }
+    }
+}
+
 pub fn generate_c15<W: Write>(c: &mut Cases<W>, rng: &mut Rng, thorough: bool) {
+    generate_sorter_chunks(c, rng, thorough);
     let n = if thorough { 3000 } else { 200 };
     let base = FileCfg { codec: CompressionType::None, level: 0, block_size: 1024, unclamped: false, interval: None, levels: 0 };
     // exact landings: k entries of equal size so that size estimate hits B-1, B, B+1
